@@ -314,3 +314,31 @@ func (p *Prog) Routes() []Route {
 	})
 	return out
 }
+
+// ArgIs: every call of callee in fn passes, at argument index idx (receiver excluded for methods and interface calls),
+// a value matching pat. min is the expected minimum number of call sites.
+func (r *Report) ArgIs(id string, fn *ssa.Function, callee Callee, idx int, pat VPat, min int) {
+	rule := fmt.Sprintf("ARG: argument %d of every call of %s is %s", idx, callee.Desc, pat.Desc)
+	if fn == nil {
+		r.Lost(id, rule, "anchored function not found")
+		return
+	}
+	key := id + " @ " + r.P.FuncName(fn)
+	calls := CallsDeep(fn, callee)
+	r.Sites += len(calls)
+	if min == 0 {
+		min = 1
+	}
+	if len(calls) < min {
+		r.Lost(key, rule, fmt.Sprintf("%d call site(s), expected >= %d", len(calls), min))
+		return
+	}
+	for _, c := range calls {
+		a := CallArg(c.Common(), idx)
+		if a == nil || !pat.M(a) {
+			r.Bad(key, rule, r.P.Pos(c.Pos()), "argument is "+AccessPath(a, 0))
+			return
+		}
+	}
+	r.OK(key, rule, r.P.Pos(fn.Pos()), fmt.Sprintf("%d call site(s)", len(calls)), true)
+}
